@@ -46,11 +46,23 @@ func covered(ranges []any, p int) bool {
 var prevParsed *authenticode.PECOFFBinary
 var prevDigest []byte
 
+var libDigestCalls int
+
 func libDigest(b []byte) ([]byte, string) {
 	var d []byte
 	stale := false
+	libDigestCalls++
 	o, err := guard(func() error {
-		p, err := authenticode.Parse(bytes.NewReader(b))
+		// Parse takes an io.ReaderAt: where the caller's own read position stands (it may have sniffed the "MZ" magic, or read the
+		// whole file once) does not matter
+		rd := bytes.NewReader(b)
+		switch libDigestCalls % 3 {
+		case 1:
+			rd.Seek(2, 0)
+		case 2:
+			rd.Seek(int64(len(b)), 0)
+		}
+		p, err := authenticode.Parse(rd)
 		if err != nil {
 			return err
 		}
@@ -153,7 +165,9 @@ func runPe(sc M) {
 				nflip++
 				changed := f2 != "" || !bytes.Equal(d2, got)
 				cov := covered(ranges, p)
-				if f2 != "" || changed != cov {
+				// the flipped image has the same layout: its digest is again SHA-256 over the specification's ranges
+				w2, _ := specDigest(mut, ranges, pad)
+				if f2 != "" || changed != cov || !bytes.Equal(d2, w2) {
 					if len(bad) < 5 {
 						bad = append(bad, M{"pos": p, "region": r.Name, "covered": cov, "changed": changed, "fail": f2})
 					}
